@@ -189,7 +189,9 @@ func Gt(a, b Term) Term { return app(SBool, ">", a, b) }
 func Ge(a, b Term) Term { return app(SBool, ">=", a, b) }
 
 func Select(arr, idx Term, elem Sort) Term { return app(elem, "select", arr, idx) }
-func Store(arr, idx, v Term) Term          { return Term{"(store " + arr.S + " " + idx.S + " " + v.S + ")", arr.Sort} }
+func Store(arr, idx, v Term) Term {
+	return Term{"(store " + arr.S + " " + idx.S + " " + v.S + ")", arr.Sort}
+}
 
 // Division. Literal divisors use SMT's native (linear) div/mod; symbolic divisors use the
 // uninterpreted pair edq/edr (Euclidean quotient and remainder) whose defining
